@@ -1001,6 +1001,8 @@ class Interp:
                 return TOP
             if n in ("attrgetter", "operator.attrgetter") and len(args) == 1 and isinstance(args[0], str):
                 return AttrGetter(args[0])
+            if n == "sorted" and args and isinstance(args[0], dict):
+                args = [list(args[0])] + list(args[1:])
             if n == "sorted" and args and isinstance(args[0], (list, tuple)):
                 keyf = kwargs.get("key")
                 rev = kwargs.get("reverse", False)
@@ -1016,7 +1018,9 @@ class Interp:
                         keys.append(self.eval(keyf.node.body, sub, keyf.func))
                 else:
                     return TOP
-                if not all(isinstance(k, (int, float)) and not isinstance(k, bool) for k in keys) or rev not in (True, False):
+                all_num = all(isinstance(k, (int, float)) and not isinstance(k, bool) for k in keys)
+                all_str = all(isinstance(k, str) and not k.startswith("<") for k in keys)
+                if not (all_num or all_str) or rev not in (True, False):
                     return TOP
                 order = sorted(range(len(keys)), key=lambda i: keys[i], reverse=rev)
                 return [args[0][i] for i in order]
@@ -1180,6 +1184,11 @@ class Interp:
             if isinstance(base, str) and not base.startswith("<") and m in ("split", "startswith", "endswith", "strip", "upper", "isdigit", "rsplit", "lstrip", "rstrip") \
                     and all(isinstance(a, (str, int)) for a in args) and not kwargs:
                 return getattr(base, m)(*args)
+            if isinstance(base, str) and not base.startswith("<") and m == "format" and not kwargs and all(isinstance(a_, (str, int)) and not (isinstance(a_, str) and a_.startswith("<")) for a_ in args):
+                try:
+                    return base.format(*args)
+                except (IndexError, KeyError, ValueError):
+                    return TOP
             if isinstance(base, str) and not base.startswith("<") and m == "join" and len(args) == 1 and isinstance(args[0], (list, tuple)) \
                     and all(isinstance(a, str) and not a.startswith("<") for a in args[0]):
                 return base.join(args[0])
